@@ -11,6 +11,14 @@ import (
 )
 
 var rules = map[string]string{
+	"C08": "pipe.New under scripts of environment moves in synctest bubbles: fill/drain cycles that empty the queue repeatedly, bursts of sends racing cancel, cancel with backlog and slow receiver, sender close with backlog / racing a receive / racing cancel, backlogs up to 10^4, capacities 0-8, " +
+		"seed-random scripts with 1-3 senders; online monitor: no send is pending at a quiescent point before cancel/close, no early close; final: drained sequence is an order-preserving duplicate-free selection of what was sent, every send completed before cancel() (sequence-numbered) is delivered, receive side closes; " +
+		"plus real-time histories of 1-4 senders and 1-3 receivers checked with porcupine against a FIFO-queue model, and a real-time soak (conservation, per-sender order); " +
+		"distinct by (case, observed outcome); non-trivial = at least one value delivered and >= 2 moves",
+	"C07": "fault enumeration: for every input length up to the bound, ALL subsets of failing positions x {Map, FMap} x {Lift/LiftF, Try/TryF} x capacities {0,1,2,4} x consumer disciplines (values first, errors first, alternating, random waited, random bursts, two always-ready consumers); " +
+		"Emit with every failure bitmap over its call indices under Lift and Try, Unfold failing at every single position of its orbit (fail-fast); then seed-random longer inputs with failure densities 0..100%; " +
+		"oracle: list model with failure bitmap (values, errors as unique ids in order, calls of the user function, closure of both channels, no goroutine left); " +
+		"distinct by (case, observed outcome); non-trivial = at least one value or error delivered",
 	"C06": "all 14 stages (+StdErr-wrapped variants) x capacities x scripts of environment moves: all interleavings of producer program(s) (sends, close), consumer programs (single receives), virtual-clock advances and one cancel for inputs up to the length bound, " +
 		"the same without cancel, then seed-random scripts (inputs <= 25, capacity <= 5, bursts, absent consumers, unclosed inputs); online monitor at every quiescent point: delivered is a prefix of the uncancelled result, nothing closes early; " +
 		"end games: completion (all closed, no library goroutine left, pacer excepted) and cancellation (cancel, inputs closed, nobody receiving: library goroutines gone within the stage's tick bound, then every channel reports closed); " +
@@ -53,6 +61,10 @@ func TestRun(t *testing.T) {
 		genC05(t)
 	case "C06":
 		genC06(t)
+	case "C07":
+		genC07(t)
+	case "C08":
+		genC08(t)
 	default:
 		t.Fatalf("no generator for %q", common.Prop)
 	}
@@ -62,6 +74,10 @@ func hooksFor(prop string) hooks {
 	switch prop {
 	case "C06":
 		return c06Hooks()
+	case "C07":
+		return c07Hooks()
+	case "C08":
+		return c08Hooks()
 	}
 	return hooks{}
 }
